@@ -82,13 +82,17 @@ def bundle(bid, rng, seed, tier):
     runs = []
     sargs = ['--shuffle'] + (['--shuffle-seed=%d' % seed] if seed is not None else [])
 
-    def add(mode, kind, args, world=w):
-        runs.append({'bid': bid, 'mode': mode, 'kind': kind, 'args': args, 'world': world})
+    def add(mode, kind, args, world=w, py=None):
+        runs.append({'bid': bid, 'mode': mode, 'kind': kind, 'args': args, 'world': world, 'py': py})
     add('discover', 'inproc', ['--list-tests'])
     if seed is not None:
         add('list', 'inproc', sargs + ['--list-tests'])
         add('seq', 'inproc', sargs)
         add('j', 'cli', sargs + ['-j', str(rng.choice([2, 3]))])
+        # "on every supported Python version": the other CPythons of the sandbox
+        vers = sorted(runlib.OTHER_PYTHONS)
+        for ver in (vers if tier != 'quick' else rng.sample(vers, min(2, len(vers)))):
+            add('py%s:list' % ver, 'inproc', sargs + ['--list-tests'], py=ver)
         lnames = list(w['layers'])
         if lnames:
             sub = rng.sample(lnames, rng.randint(1, len(lnames)))
@@ -112,12 +116,13 @@ def run(chk, tier, seed, replay=None):
                 'cannot change an order); the FilterFirst deviation gives a counterexample. (2) real '
                 'runs: bundles (world, seed) over seeds {0, 1, 42, 2^31-1, 2^63, -5, 10^30, random} and '
                 'layer sizes {1,2,3,5,10}: --list-tests, sequential run, -j N children, resumed children, '
-                '--layer subsets (list and run), and without a seed a -j run plus re-runs with the '
+                '--layer subsets (list and run), --list-tests under the other CPython versions of the sandbox, and without a seed a -j run plus re-runs with the '
                 'reported seed; TLC decides permutation / equality of all observations / seed report, and '
                 '(DRIFT) equality with the Fisher-Yates order for the choice table of random.Random(seed); '
                 'distinct = distinct (layer sizes, seed, modes)')
     chk.assumptions += ['random.Random(seed).random() is the environment (choice table passed to TLC)',
-                        'other interpreters are not exercised in this tier']
+                        'equality across Python versions is observed on the CPythons present in the sandbox '
+                        '(3.9, 3.10, 3.11, 3.13 next to 3.12), not proved']
     rng = random.Random(seed * 7919 + 11)
     if replay:
         with open(replay) as f:
@@ -212,12 +217,14 @@ def run(chk, tier, seed, replay=None):
 
 def execute(runs):
     out = {}
-    inproc = [r for r in runs if r['kind'] == 'inproc']
     cli = [r for r in runs if r['kind'] == 'cli']
-    jobs = [{'id': str(i), 'world': r['world'], 'args': r['args'], 'stdout_kind': 'file'}
-            for i, r in enumerate(inproc)]
-    for r, res in zip(inproc, runlib.run_inproc_many(jobs)):
-        out[id(r)] = res
+    for ver in [None] + sorted(runlib.OTHER_PYTHONS):
+        inproc = [r for r in runs if r['kind'] == 'inproc' and r.get('py') == ver]
+        jobs = [{'id': str(i), 'world': r['world'], 'args': r['args'], 'stdout_kind': 'file'}
+                for i, r in enumerate(inproc)]
+        py = runlib.OTHER_PYTHONS[ver] if ver else None
+        for r, res in zip(inproc, runlib.run_inproc_many(jobs, python=py)):
+            out[id(r)] = res
     for r, res in zip(cli, runlib.run_cli_many([(r['world'], r['args'], {'timeout': 120}) for r in cli])):
         out[id(r)] = res
     return out
